@@ -4,7 +4,7 @@ c11_tie = importlib.util.module_from_spec(_spec); _spec.loader.exec_module(c11_t
 T = "GeomV.C11."
 CFG = {
     "id": "C11",
-    "lean_modules": ["GeomV.C11.Proofs"] + c11_tie.C11_TIES,
+    "lean_modules": ["GeomV.C11.Proofs", "GeomV.C11.ProofsArith"] + c11_tie.C11_TIES,
     "exe": "geomv_c11",
     "go_cmd": "c11",
     "stages": ["go:gen", "go:impl", "lean:judge"],
@@ -12,6 +12,8 @@ CFG = {
         "C11_init", "C11_sharePoint_iff", "C11_intersects_iff", "C11_search", "C11_split_partition",
         "C11_insert", "C11_delete_absent", "C11_delete_present", "C11_step", "C11_reachable",
         "C11_search_reachable", "C11_goHeur_inRange",
+        # phase 3: the heuristics under ANY interpretation of the float arithmetic (rounding, overflow, NaN)
+        "C11_anyArith_inRange", "C11_heurA_rat", "C11_reachable_anyArith", "C11_chooseNode_old_defect", "C11_chooseEntryOld_eq_new_rat",
         # T1: definitions regenerated from index/rtree/{geom,rtree}.go of the tree under test = the model's
         "C11_tie_size", "C11_tie_margin", "C11_tie_containsPoint", "C11_tie_containsRect", "C11_tie_intersect",
         "C11_tie_enlarge", "C11_tie_initBoundingBox", "C11_tie_boundingBox", "C11_tie_computeBoundingBox",
